@@ -175,9 +175,34 @@ def register(R):
 
     R.external('aws_request', **{'.body': ExtSpec(returns=request_body, pure=True)})
 
+    # botocore may have wrapped the upload body for an aws-chunked trailing checksum by the time request-created fires: the
+    # request's body is then an AwsChunkedWrapper (no signal_* methods of its own) whose `_raw` is the ReadFileChunk
+    def wrapped_body(eng, st, recv, args, kwargs):
+        key = ('wrapped_body', recv.label)
+        if key not in st.ghost:
+            st.ghost[key] = Opaque('aws_chunked_body_of_' + recv.label, kind='aws_chunked_body')
+            st.ghost[('wrapper_of', st.ghost[key].label)] = recv
+        return st.ghost[key]
+
+    def raw_of_wrapper(eng, st, recv, args, kwargs):
+        return request_body(eng, st, st.ghost[('wrapper_of', recv.label)], (), {})
+
+    R.external('aws_request_wrapped_body', **{'.body': ExtSpec(returns=wrapped_body, pure=True)})
+    R.external('aws_chunked_body', **{'._raw': ExtSpec(returns=raw_of_wrapper, pure=True),
+                                     'hasattr:_raw': ExtSpec(returns=True), 'isinstance:AwsChunkedWrapper': ExtSpec(returns=True),
+                                     'hasattr:signal_transferring': ExtSpec(returns=False),
+                                     'hasattr:signal_not_transferring': ExtSpec(returns=False)})
+
     def signal_contract(name, val):
         def checks(c):
             body = c.new.st.ghost.get(('request_body', c.a_request.label))
+            if c.a_request.kind == 'aws_request_wrapped_body':
+                # the body botocore has wrapped (AwsChunkedWrapper around the ReadFileChunk): whatever the first handler did
+                # with it, reporting is on once the last request-created handler has run -- the bytes the HTTP layer then
+                # reads through the wrapper are the transferred ones (C09: amounts sum to the size)
+                # (what the first handler, signal_not_transferring, does with a wrapped body is left open)
+                if c.a_operation_name in ('PutObject', 'UploadPart') and not val:
+                    return {}
             if body is None:
                 return {'only_upload_bodies_are_touched': B(c.a_operation_name not in ('PutObject', 'UploadPart'))}
             en1 = b2z(c.new.f(body, '_callbacks_enabled'))
@@ -188,12 +213,13 @@ def register(R):
                 fo = c.new.f(body, '_fileobj')
                 sig = [e for e in flat(c.trace) if e.kind == 'ext' and e.name == 'fileobj_or_name.' + name]
                 has = c.engine.opaque_pred(fo, 'hasattr_' + name) if isinstance(fo, Opaque) else B(False)
-                return {'reporting_of_the_upload_body_is_' + ('on' if val else 'off'): en1 == B(val),
+                return {'reporting_of_the_upload_body_is_' + ('on' if val else 'off'): (en1 == B(val), ['C09']),
                         'signal_reaches_the_wrapped_stream_iff_it_understands_it': (z3.If(
                             has, B(len(sig) == 1 and sig[0].recv is fo), B(len(sig) == 0)), ['C13', 'C09'])}
             return {'other_operations_bodies_untouched': en1 == en0}
         R.contract(f'{UT}:{name}', props=['C09', 'C13'], params=dict(request=ExtT('aws_request'), operation_name=Str),
-                   param_alternatives={'operation_name': [(n, Const(n)) for n in ('PutObject', 'UploadPart', 'GetObject')]},
+                   param_alternatives={'operation_name': [(n, Const(n)) for n in ('PutObject', 'UploadPart', 'GetObject')],
+                                       'request': [('plain', ExtT('aws_request')), ('wrapped', ExtT('aws_request_wrapped_body'))]},
                    setup=lambda eng, st, args, self_val: request_body(eng, st, args['request'], (), {}),
                    checks=checks, raises={}, top_level=True)
     signal_contract('signal_not_transferring', False)
